@@ -98,3 +98,40 @@ for name,(prop,summary,needs) in info3.items():
             if k in o: meta[k]=o[k]
     json.dump(meta,open(old,'w'),indent=1)
     print(name,caught)
+
+info4={
+'C02d':('C02','(same mechanism as C01c, found independently) NewGraph copies the Struct provider\'s IsAsync onto the field accessors: the second accessor runs in its own goroutine without waiting for the struct','kessoku.Async(kessoku.Struct[T]()) with two needed fields feeding different providers, the struct provider slower than the accessor goroutine'),
+'C03d':('C03','fnProvider.returnIndex becomes a running slot number over every provided type and node.returnValues lists a variable once per type it is provided as: the channel-close statement of a Bind provider closes the same done-channel twice','a kessoku.Bind provider whose value is consumed in another goroutine (it owns a done-channel); fails in every schedule'),
+'C05d':('C05','the bindProvider case of parseProviderType returns a freshly built result that forwards every field except IsAsync: Bind[I](Async(Provide(f))) becomes synchronous','the nesting Bind(Async(..)) (not Async(Bind(..))) on a parameterless provider next to another parameterless Async provider'),
+'C07d':('C07','(same mechanism as C08b) the longest ready pool runs inline on the caller when every root is Async: pool 0 and its joins become a goroutine chain with ctx-aware waits','injector without error result, all roots Async, a ready pool strictly longer than pool 0, cancellation before the long pool published its value'),
+'C08d':('C08','(same change as C05d) Bind[I](Async(Provide(f))) loses IsAsync: a fallible f moves onto the caller\'s goroutine, whose error return neither cancels nor waits','Bind(Async(..)) on a fallible provider, another goroutine waiting for a value computed after it, the provider failing'),
+'C09d':('C09','initializePackages deletes a previous *_band.go that carries the generated-code marker and no longer type-checks, before the graph is checked: a refused run removes the existing output','an earlier successful generation, then an edit that both breaks the old output\'s types and makes the declaration unsatisfiable'),
+'C10d':('C10','the loaded package is cached per directory for the whole invocation: a later file is analysed against the snapshot taken before the earlier file\'s output was rewritten','kessoku a.go b.go where b.go uses the injector generated from a.go as a provider and that injector\'s signature changed since the last generation'),
+'C13d':('C13','FieldsOf accessors are remembered in a Transformer field that is reset per FILE, not per declaration: a later set\'s FieldsOf on the same struct is merged into an earlier, unrelated set\'s accessor','two top-level sets in one file with wire.FieldsOf on one struct (other fields), an injector that uses the later set only'),
+}
+for name,(prop,summary,needs) in info4.items():
+    d='/verif/seeded/'+name
+    if not os.path.isdir(d): continue
+    caught=[]
+    f=None
+    for rd in resdirs:
+        c=os.path.join(rd,name+'.txt')
+        if os.path.exists(c) and os.path.getsize(c)>0: f=c
+    if f:
+        cur=None; kinds={}
+        for l in open(f):
+            m=re.match(r'== seed=\S+ check=(\S+) exit=(\d+)',l)
+            if m: cur=m.group(1); kinds.setdefault(cur,[]); kinds[cur+':exit']=m.group(2)
+            m=re.match(r'\s+kind=(\S+) site=(.*?) pre=',l)
+            if m and cur:
+                k=m.group(1)
+                if k not in kinds[cur]: kinds[cur].append(k)
+        for c,ks in kinds.items():
+            if c.endswith(':exit'): continue
+            if kinds.get(c+':exit')=='1': caught.append('%s (%s)'%(c,', '.join(ks)))
+    meta={'property':prop,'round':4,'summary':summary,'needs':needs,'caught_by':caught,
+      'confirmed':'scripts/confirm_seed.sh (patch applies to HEAD and touches no test; suite green with it; demonstration fails with it and passes without)',
+      'how_checks_were_run':'scripts/try_seed_wt.sh / scripts/seed_matrix.sh'}
+    old=os.path.join(d,'meta.json')
+    json.dump(meta,open(old,'w'),indent=1)
+    print(name,caught)
